@@ -285,5 +285,470 @@ theorem Good.decLR (ms : List Machine) (lim st l2 s2 : Nat → Nat) (mi cur : Na
   rw [checkLog_lt ms _ _ _ _ lt]
   exact hc.chk lt rest hrest
 
+/-! ### the invariant tying the monitor's maps to the model -/
+
+variable {σ : Type} (ρ : Oracle σ)
+
+/-- the tracked maps agree with the runtimes (on the machines that exist), and the machines are
+    those the monitor looks at -/
+structure Inv (ms : List Machine) (lim st : Nat → Nat) (s : Fw σ) : Prop where
+  ms : s.machines = ms
+  rt : ∀ (j : Nat) (r : Runtime), s.rt[j]? = some r → lim j = r.stateLimit ∧ st j = r.currentState
+
+/-- the part of a runtime the invariant depends on -/
+def key (r : Runtime) : Nat × Nat := (r.stateLimit, r.currentState)
+
+theorem Inv.congr {ms : List Machine} {lim st : Nat → Nat} {s t : Fw σ} (hm : t.machines = s.machines)
+    (h : ∀ j : Nat, (t.rt[j]?).map key = (s.rt[j]?).map key) (hi : Inv ms lim st s) : Inv ms lim st t := by
+  refine ⟨hm.trans hi.ms, fun j r hr => ?_⟩
+  have := h j
+  rw [hr] at this
+  cases hs : s.rt[j]? with
+  | none => rw [hs] at this; simp at this
+  | some r0 =>
+    rw [hs] at this
+    simp only [Option.map_some, Option.some.injEq, key, Prod.mk.injEq] at this
+    have hb := hi.rt j r0 hs
+    rw [this.1, this.2]
+    exact hb
+
+/-- the invariant after machine `mi`'s limit / state were set -/
+theorem Inv.update {ms : List Machine} {lim st : Nat → Nat} {s t : Fw σ} {mi : Nat} {r' : Runtime}
+    (hi : Inv ms lim st s) (hm : t.machines = s.machines) (hr' : t.rt[mi]? = some r')
+    (ho : ∀ j, j ≠ mi → t.rt[j]? = s.rt[j]?) :
+    Inv ms (upd lim mi r'.stateLimit) (upd st mi r'.currentState) t := by
+  refine ⟨hm.trans hi.ms, fun j r hr => ?_⟩
+  by_cases hj : j = mi
+  · subst hj
+    rw [hr'] at hr
+    cases hr
+    simp [upd]
+  · rw [ho j hj] at hr
+    have := hi.rt j r hr
+    simp [upd, hj, this]
+
+theorem withFault_fault_ne (s : Fw σ) (f : Fault) : (s.withFault f).fault ≠ none := by
+  unfold Fw.withFault
+  split
+  · next h => rw [h]; simp
+  · simp
+
+theorem modRt_fault (s : Fw σ) (j : Nat) (g : Runtime → Runtime) (h : (s.modRt j g).fault = none) :
+    s.fault = none ∧ ∃ r, s.rt[j]? = some r := by
+  unfold Fw.modRt at h
+  split at h
+  · next r hr => exact ⟨h, r, hr⟩
+  · exact absurd h (withFault_fault_ne _ _)
+
+/-! ### the relation carried through a call -/
+
+/-- if `t` has no fault then `s` has none either, and `t` extends the log of `s` by a chronological
+    segment `c` which the monitor accepts starting from any maps that agree with `s`, ending with
+    maps that agree with `t` -/
+def R (ms : List Machine) (s t : Fw σ) : Prop :=
+  t.fault = none → s.fault = none ∧ ∃ c, t.log = c.reverse ++ s.log ∧
+    ∀ lim st, Inv ms lim st s → ∃ lim' st', Good ms lim st c lim' st' ∧ Inv ms lim' st' t
+
+variable {ms : List Machine}
+
+theorem R.refl (s : Fw σ) : R ms s s :=
+  fun h => ⟨h, [], rfl, fun lim st hi => ⟨lim, st, Good.nil ms lim st, hi⟩⟩
+
+theorem R.trans {s t u : Fw σ} (h₁ : R ms s t) (h₂ : R ms t u) : R ms s u := by
+  intro hu
+  obtain ⟨ht, c2, e2, p2⟩ := h₂ hu
+  obtain ⟨hs, c1, e1, p1⟩ := h₁ ht
+  refine ⟨hs, c1 ++ c2, by rw [e2, e1, List.reverse_append, List.append_assoc], fun lim st hi => ?_⟩
+  obtain ⟨l1, s1, g1, i1⟩ := p1 lim st hi
+  obtain ⟨l2, s2, g2, i2⟩ := p2 l1 s1 i1
+  exact ⟨l2, s2, g1.append g2, i2⟩
+
+theorem R.vac {s t : Fw σ} (h : t.fault ≠ none) : R ms s t := fun ht => absurd ht h
+
+theorem R.withFault (s : Fw σ) (f : Fault) : R ms s (s.withFault f) := R.vac (withFault_fault_ne s f)
+
+theorem R.fault {s s' : Fw σ} (f : Fault) : R ms s (s'.withFault f) := R.vac (withFault_fault_ne s' f)
+
+theorem R.keep {s t : Fw σ} (hf : t.fault = none → s.fault = none) (hl : t.log = s.log)
+    (hm : t.machines = s.machines) (hk : ∀ j : Nat, (t.rt[j]?).map key = (s.rt[j]?).map key) : R ms s t :=
+  fun ht => ⟨hf ht, [], by simp [hl], fun lim st hi => ⟨lim, st, Good.nil ms lim st, hi.congr hm hk⟩⟩
+
+theorem R.same {s t : Fw σ} (hf : t.fault = s.fault) (hl : t.log = s.log) (hm : t.machines = s.machines)
+    (hrt : t.rt = s.rt) : R ms s t :=
+  R.keep (fun h => by rw [← hf]; exact h) hl hm (fun j => by rw [hrt])
+
+theorem R.modRt (s : Fw σ) (j : Nat) (g : Runtime → Runtime) (hg : ∀ r, key (g r) = key r) :
+    R ms s (s.modRt j g) := by
+  refine R.keep (fun h => (modRt_fault s j g h).1) (by simp) (by simp) (fun i => ?_)
+  by_cases hj : i = j
+  · subst hj
+    rw [Fw.modRt_rt_self]
+    cases s.rt[i]? <;> simp [hg]
+  · rw [Fw.modRt_rt_other s j i g hj]
+
+/-- one more entry that the monitor skips -/
+theorem R.log1 {s t : Fw σ} (e : LogEntry) (he : plain e = true) (hf : t.fault = s.fault) (hl : t.log = e :: s.log)
+    (hm : t.machines = s.machines) (hrt : t.rt = s.rt) : R ms s t :=
+  fun ht => ⟨by rw [← hf]; exact ht, [e], by simp [hl], fun lim st hi =>
+    ⟨lim, st, Good.single ms lim st e he, hi.congr hm (fun j => by rw [hrt])⟩⟩
+
+theorem R.push (s : Fw σ) (e : LogEntry) (he : plain e = true) : R ms s (s.push e) := R.log1 e he rfl rfl rfl rfl
+
+/-- sampling: the log grows by skipped entries only; runtimes, machines and the fault flag are
+    untouched -/
+def Q (s t : Fw σ) : Prop :=
+  ∃ c : List LogEntry, t.log = c.reverse ++ s.log ∧ (∀ e ∈ c, plain e = true) ∧ t.rt = s.rt ∧ t.machines = s.machines ∧
+    t.fault = s.fault ∧ t.actions = s.actions
+
+theorem Q.refl (s : Fw σ) : Q s s := ⟨[], rfl, by simp, rfl, rfl, rfl, rfl⟩
+
+theorem Q.trans {s t u : Fw σ} (h₁ : Q s t) (h₂ : Q t u) : Q s u := by
+  obtain ⟨c1, e1, g1, r1, m1, f1, a1⟩ := h₁
+  obtain ⟨c2, e2, g2, r2, m2, f2, a2⟩ := h₂
+  refine ⟨c1 ++ c2, by rw [e2, e1, List.reverse_append, List.append_assoc], ?_, r2.trans r1, m2.trans m1, f2.trans f1,
+    a2.trans a1⟩
+  intro e he
+  rcases List.mem_append.1 he with h | h
+  · exact g1 e h
+  · exact g2 e h
+
+theorem good_plain (ms : List Machine) (lim st : Nat → Nat) (c : List LogEntry) (h : ∀ e ∈ c, plain e = true) :
+    Good ms lim st c lim st := by
+  induction c with
+  | nil => exact Good.nil ms lim st
+  | cons e c ih =>
+    have := (Good.single ms lim st e (h e (by simp))).append (ih (fun e' he' => h e' (by simp [he'])))
+    simpa using this
+
+theorem Q.toR {s t : Fw σ} (h : Q s t) : R ms s t := by
+  obtain ⟨c, e, g, r, m, f, _⟩ := h
+  exact fun ht => ⟨by rw [← f]; exact ht, c, e, fun lim st hi =>
+    ⟨lim, st, good_plain ms lim st c g, hi.congr m (fun j => by rw [r])⟩⟩
+
+theorem q_distSample (d : Dist) (s : Fw σ) : Q s (distSample ρ d s).2 := by
+  unfold distSample
+  exact ⟨[.distRaw _], rfl, by simp [plain], rfl, rfl, rfl, rfl⟩
+
+theorem q_sampleLimit (a : Action) (s : Fw σ) : Q s (sampleLimit ρ a s).2 := by
+  unfold sampleLimit; split
+  · exact Q.refl s
+  · exact q_distSample ρ _ s
+
+theorem q_sampleValue (c : Counter) (s : Fw σ) : Q s (sampleValue ρ c s).2 := by
+  unfold sampleValue; split
+  · exact Q.refl s
+  · exact q_distSample ρ _ s
+
+theorem q_sampleTimeout (a : Action) (s : Fw σ) : Q s (sampleTimeout ρ a s).2 := by
+  unfold sampleTimeout; split
+  · exact q_distSample ρ _ s
+  · exact q_distSample ρ _ s
+  · exact Q.refl s
+
+theorem q_sampleDuration (a : Action) (s : Fw σ) : Q s (sampleDuration ρ a s).2 := by
+  unfold sampleDuration; split
+  · exact q_distSample ρ _ s
+  · exact q_distSample ρ _ s
+  · exact Q.refl s
+
+theorem q_counterOperand (c : Counter) (other : Nat) (s : Fw σ) : Q s (counterOperand ρ c other s).2 := by
+  unfold counterOperand; split
+  · exact Q.refl s
+  · exact q_sampleValue ρ c s
+
+theorem r_scheduleAction (mi next : Nat) (s : Fw σ) : R ms s (scheduleAction ρ mi next s) := by
+  unfold scheduleAction
+  cases hm : s.machines[mi]? with
+  | none => exact R.withFault s _
+  | some m =>
+    simp only []
+    cases hst : m.states[next]? with
+    | none => exact R.withFault s _
+    | some st =>
+      simp only []
+      split
+      · exact R.withFault s _
+      · cases hact : st.action with
+        | none => exact R.same rfl rfl rfl rfl
+        | some act =>
+          cases act with
+          | cancel t => exact R.same rfl rfl rfl rfl
+          | sendPadding b rp tmo lim =>
+            simp only
+            exact (q_sampleTimeout ρ _ s).toR.trans (R.same rfl rfl rfl rfl)
+          | blockOutgoing b rp tmo du lim =>
+            simp only
+            exact ((q_sampleTimeout ρ _ s).trans (q_sampleDuration ρ _ _)).toR.trans (R.same rfl rfl rfl rfl)
+          | updateTimer rp du lim =>
+            simp only
+            exact (q_sampleDuration ρ _ s).toR.trans (R.same rfl rfl rfl rfl)
+
+theorem r_storeCounterA (mi oldA newA : Nat) (s : Fw σ) : R ms s (storeCounterA mi oldA newA s).1 := by
+  unfold storeCounterA
+  simp only
+  split
+  · exact (R.modRt s mi _ (by intro _; rfl)).trans (R.modRt _ mi _ (by intro _; rfl))
+  · exact R.modRt s mi _ (fun _ => rfl)
+
+theorem r_storeCounterB (mi oldB newB : Nat) (s : Fw σ) : R ms s (storeCounterB mi oldB newB s).1 := by
+  unfold storeCounterB
+  simp only
+  split
+  · exact (R.modRt s mi _ (by intro _; rfl)).trans (R.modRt _ mi _ (by intro _; rfl))
+  · exact R.modRt s mi _ (fun _ => rfl)
+
+theorem r_applyCounterA (mi : Nat) (c : Option Counter) (oldA oldB : Nat) (s : Fw σ) :
+    R ms s (applyCounterA ρ mi c oldA oldB s).1 := by
+  unfold applyCounterA
+  cases c with
+  | none => exact R.refl s
+  | some c => exact (q_counterOperand ρ c oldB s).toR.trans (r_storeCounterA mi _ _ _)
+
+theorem r_applyCounterB (mi : Nat) (c : Option Counter) (oldA oldB : Nat) (s : Fw σ) :
+    R ms s (applyCounterB ρ mi c oldA oldB s).1 := by
+  unfold applyCounterB
+  cases c with
+  | none => exact R.refl s
+  | some c => exact (q_counterOperand ρ c oldA s).toR.trans (r_storeCounterB mi _ _ _)
+
+/-! ### the state-change block -/
+
+theorem sampleLimit_shape (a : Action) (s : Fw σ) :
+    (sampleLimit ρ a s).2.rt = s.rt ∧ (sampleLimit ρ a s).2.machines = s.machines ∧
+    (sampleLimit ρ a s).2.fault = s.fault ∧
+    ∃ d : List LogEntry, (d = [] ∨ ∃ b, d = [.distRaw b]) ∧ (sampleLimit ρ a s).2.log = d.reverse ++ s.log := by
+  unfold sampleLimit
+  split
+  · exact ⟨rfl, rfl, rfl, [], Or.inl rfl, rfl⟩
+  · unfold distSample
+    exact ⟨rfl, rfl, rfl, [.distRaw _], Or.inr ⟨_, rfl⟩, rfl⟩
+
+/-- a sampled regular target different from the current state, (the draw of the limit
+    distribution,) the limit assignment -/
+theorem r_resample {s t : Fw σ} {mi ev next v : Nat} {r : Runtime} (d : List LogEntry)
+    (hd : d = [] ∨ ∃ b, d = [.distRaw b])
+    (hr : s.rt[mi]? = some r) (hne : r.currentState ≠ next) (hreg : isRegular next = true)
+    (hf : t.fault = s.fault) (hm : t.machines = s.machines)
+    (hl : t.log = .limit mi v false :: (d.reverse ++ .sampled mi ev next :: s.log))
+    (hr' : t.rt[mi]? = some { r with currentState := next, stateLimit := v })
+    (ho : ∀ j, j ≠ mi → t.rt[j]? = s.rt[j]?) : R ms s t := by
+  intro ht
+  refine ⟨by rw [← hf]; exact ht, .sampled mi ev next :: d ++ [.limit mi v false], by simp [hl], fun lim st hi => ?_⟩
+  have hcur : st mi ≠ next := by rw [(hi.rt mi r hr).2]; exact hne
+  refine ⟨upd lim mi v, upd st mi next, ?_, Inv.update hi hm hr' ho⟩
+  rcases hd with rfl | ⟨b, rfl⟩
+  · exact Good.resample0 ms lim st mi ev next v hreg hcur
+  · exact Good.resample1 ms lim st mi ev next v b hreg hcur
+
+/-- the sampled entry of a regular target together with the state-change block of `transition` -/
+theorem r_sampledEnter (mi ev next : Nat) (m : Machine) (r : Runtime) (s : Fw σ)
+    (hr : s.rt[mi]? = some r) (hreg : isRegular next = true) :
+    R ms s (enterState ρ mi m r.currentState next (s.push (.sampled mi ev next))) := by
+  unfold enterState
+  split
+  · next hne =>
+    simp only
+    have hr0 : ((s.push (.sampled mi ev next)).modRt mi (fun r => { r with currentState := next })).rt[mi]? =
+        some { r with currentState := next } := by
+      rw [Fw.modRt_rt_self, Fw.push_rt, hr]; rfl
+    have hf0 : ((s.push (.sampled mi ev next)).modRt mi (fun r => { r with currentState := next })).fault = s.fault :=
+      Countdown.modRt_fault_some _ _ _ r (by rw [Fw.push_rt]; exact hr)
+    have ho0 : ∀ j, j ≠ mi →
+        ((s.push (.sampled mi ev next)).modRt mi (fun r => { r with currentState := next })).rt[j]? = s.rt[j]? := by
+      intro j hj; rw [Fw.modRt_rt_other _ mi j _ hj, Fw.push_rt]
+    have hl0 : ((s.push (.sampled mi ev next)).modRt mi (fun r => { r with currentState := next })).log =
+        .sampled mi ev next :: s.log := by simp [Fw.push]
+    have hm0 : ((s.push (.sampled mi ev next)).modRt mi (fun r => { r with currentState := next })).machines =
+        s.machines := by simp
+    generalize (s.push (.sampled mi ev next)).modRt mi (fun r => { r with currentState := next }) = s0
+      at hr0 hf0 ho0 hl0 hm0 ⊢
+    cases hst : m.states[next]? with
+    | none => simp only []; exact R.fault _
+    | some nst =>
+      simp only
+      cases hact : nst.action with
+      | none =>
+        simp only
+        refine r_resample (ms := ms) (ev := ev) (v := STATE_LIMIT_MAX) [] (Or.inl rfl) hr hne hreg ?_ ?_ ?_ ?_ ?_
+        · rw [Fw.push_fault, Countdown.modRt_fault_some _ _ _ _ hr0]; exact hf0
+        · simp [hm0]
+        · simp [Fw.push, hl0]
+        · rw [Fw.push_rt, Fw.modRt_rt_self, hr0]; rfl
+        · intro j hj; rw [Fw.push_rt, Fw.modRt_rt_other _ mi j _ hj]; exact ho0 j hj
+      | some a =>
+        simp only
+        obtain ⟨k1, k2, k3, d, hd, k4⟩ := sampleLimit_shape ρ a s0
+        generalize sampleLimit ρ a s0 = p at k1 k2 k3 k4 ⊢
+        have hrp : p.2.rt[mi]? = some { r with currentState := next } := by rw [k1]; exact hr0
+        refine r_resample (ms := ms) (ev := ev) (v := p.1) d hd hr hne hreg ?_ ?_ ?_ ?_ ?_
+        · rw [Fw.push_fault, Countdown.modRt_fault_some _ _ _ _ hrp, k3]; exact hf0
+        · simp [k2, hm0]
+        · simp [Fw.push, k4, hl0]
+        · rw [Fw.push_rt, Fw.modRt_rt_self, hrp]; rfl
+        · intro j hj; rw [Fw.push_rt, Fw.modRt_rt_other _ mi j _ hj, k1]; exact ho0 j hj
+  · next heq =>
+    have heq' : r.currentState = next := by
+      rcases Nat.decEq r.currentState next with h | h
+      · exact absurd h heq
+      · exact h
+    intro ht
+    refine ⟨ht, [.sampled mi ev next], rfl, fun lim st hi => ?_⟩
+    have hcur : st mi = next := by rw [(hi.rt mi r hr).2]; exact heq'
+    refine ⟨lim, upd st mi next, Good.sampledSelf ms lim st mi ev next hreg hcur, ⟨hi.ms, fun j rj hj => ?_⟩⟩
+    have := hi.rt j rj hj
+    refine ⟨this.1, ?_⟩
+    by_cases hjm : j = mi
+    · subst hjm; simp [upd, ← this.2, hcur]
+    · simp [upd, hjm, this.2]
+
+/-! ### `transition` / `update_counter` -/
+
+theorem toNat_limitReached (ev : Event) : ev.toNat = Gen.EV_LimitReached ↔ ev = .limitReached := by
+  cases ev <;> decide
+
+theorem main (mi : Nat) (fuel : Nat) :
+    (∀ (ev : Event) (s : Fw σ) (r : Runtime) (m : Machine), s.rt[mi]? = some r → s.machines[mi]? = some m →
+      R ms (s.push (.trans mi ev.toNat r.currentState)) (transition ρ fuel mi ev s).1) ∧
+    (∀ (s : Fw σ), R ms s (updateCounter ρ fuel mi s).1) := by
+  induction fuel with
+  | zero =>
+    refine ⟨fun ev s r m _ _ => ?_, fun s => ?_⟩
+    · rw [transition]; exact R.fault _
+    · rw [updateCounter]; exact R.fault _
+  | succ n ih =>
+    obtain ⟨ihT, ihU⟩ := ih
+    refine ⟨fun ev s r m hr hm => ?_, fun s => ?_⟩
+    · rw [transition, hr, hm]
+      simp only []
+      have h0 : R ms (s.push (.trans mi ev.toNat r.currentState)) (s.push (.trans mi ev.toNat r.currentState)) :=
+        R.refl _
+      split
+      · exact h0
+      · cases hst : m.states[r.currentState]? with
+        | none => exact R.fault _
+        | some st =>
+        simp only []
+        cases htr : st.transitions[ev.toNat]? with
+        | none => exact R.fault _
+        | some ov =>
+        cases ov with
+        | none => exact h0
+        | some vec =>
+        simp only []
+        generalize hs1 : (({ (s.push (.trans mi ev.toNat r.currentState)) with
+            rng := (ρ.u (s.push (.trans mi ev.toNat r.currentState)).rng).2 }).push
+              (.draw (ρ.u (s.push (.trans mi ev.toNat r.currentState)).rng).1)) = s1
+        have q1 : R ms (s.push (.trans mi ev.toNat r.currentState)) s1 := by
+          subst hs1; exact R.log1 (.draw _) rfl rfl rfl rfl rfl
+        have e1 : s1.rt = s.rt := by subst hs1; rfl
+        have m1 : s1.machines = s.machines := by subst hs1; rfl
+        have hr1 : s1.rt[mi]? = some r := by rw [e1]; exact hr
+        cases hss : sampleState vec (ρ.u (s.push (.trans mi ev.toNat r.currentState)).rng).1 with
+        | none => simp only []; exact q1
+        | some next =>
+        simp only []
+        split
+        · next hend =>
+          subst hend
+          refine q1.trans ?_
+          intro ht
+          have hf := Countdown.modRt_fault_some (s1.push (.sampled mi ev.toNat STATE_END)) mi
+            (fun r => { r with currentState := STATE_END }) r (by rw [Fw.push_rt]; exact hr1)
+          refine ⟨by rw [hf] at ht; exact ht, [.sampled mi ev.toNat STATE_END], by simp [Fw.push], fun lim st hi => ?_⟩
+          refine ⟨lim, upd st mi STATE_END, Good.sampledEnd ms lim st mi ev.toNat, ?_⟩
+          have := Inv.update (mi := mi) (t := (s1.push (.sampled mi ev.toNat STATE_END)).modRt mi
+            (fun r => { r with currentState := STATE_END })) (r' := { r with currentState := STATE_END }) hi (by simp)
+            (by rw [Fw.modRt_rt_self, Fw.push_rt, hr1]; rfl)
+            (fun j hj => by rw [Fw.modRt_rt_other _ mi j _ hj, Fw.push_rt])
+          refine ⟨this.ms, fun j rj hj => ?_⟩
+          have h2 := this.rt j rj hj
+          refine ⟨?_, h2.2⟩
+          rw [← h2.1]
+          by_cases hjm : j = mi
+          · subst hjm; simp [upd, (hi.rt j r hr1).1]
+          · simp [upd, hjm]
+        · split
+          · next hne hsig =>
+            subst hsig
+            refine q1.trans ?_
+            intro ht
+            refine ⟨ht, [.sampled mi ev.toNat STATE_SIGNAL], rfl, fun lim st hi => ?_⟩
+            exact ⟨lim, st, Good.sampledSignal ms lim st mi ev.toNat, ⟨hi.ms, hi.rt⟩⟩
+          · next hne hns =>
+            have q3 := q1.trans (r_sampledEnter ρ (ms := ms) mi ev.toNat next m r s1 hr1 (isRegular_of hne hns))
+            generalize enterState ρ mi m r.currentState next (s1.push (.sampled mi ev.toNat next)) = s3 at q3 ⊢
+            cases hr3 : s3.rt[mi]? with
+            | none => simp only []; exact R.fault _
+            | some r1 =>
+            simp only []
+            cases hb : belowActionLimits s3.g r1 m with
+            | none => simp only []; exact R.fault _
+            | some below =>
+            simp only []
+            have q4 := q3.trans (ihU s3)
+            have q5 : R ms (s.push (.trans mi ev.toNat r.currentState))
+                (if ((updateCounter ρ n mi s3).2.1 && below) = true
+                  then scheduleAction ρ mi next (updateCounter ρ n mi s3).1 else (updateCounter ρ n mi s3).1) := by
+              split
+              · exact q4.trans (r_scheduleAction ρ mi next _)
+              · exact q4
+            generalize (if ((updateCounter ρ n mi s3).2.1 && below) = true
+                then scheduleAction ρ mi next (updateCounter ρ n mi s3).1 else (updateCounter ρ n mi s3).1) = s5 at q5 ⊢
+            cases hr5 : s5.rt[mi]? with
+            | none => simp only []; exact R.fault _
+            | some r2 => simp only []; exact q5
+    · rw [updateCounter]
+      cases hr : s.rt[mi]? with
+      | none => exact R.fault _
+      | some r =>
+      cases hm : s.machines[mi]? with
+      | none => exact R.fault _
+      | some m =>
+      simp only []
+      cases hst : m.states[r.currentState]? with
+      | none => exact R.fault _
+      | some st =>
+      simp only []
+      have qA := r_applyCounterA ρ (ms := ms) mi st.counterA r.counterA r.counterB s
+      generalize applyCounterA ρ mi st.counterA r.counterA r.counterB s = ra at qA ⊢
+      have qB := qA.trans (r_applyCounterB ρ (ms := ms) mi st.counterB r.counterA r.counterB ra.1)
+      generalize applyCounterB ρ mi st.counterB r.counterA r.counterB ra.1 = rb at qB ⊢
+      have q2 := qB.trans (R.push (ms := ms) rb.1
+        (.counter mi r.counterA (counterAOf rb.1 mi) r.counterB (counterBOf rb.1 mi)) rfl)
+      generalize rb.1.push (.counter mi r.counterA (counterAOf rb.1 mi) r.counterB (counterBOf rb.1 mi)) = s2 at q2 ⊢
+      split
+      · have qT : R ms s (transition ρ n mi .counterZero s2).1 := by
+          cases n with
+          | zero => rw [transition]; exact R.fault _
+          | succ k =>
+            cases hr2 : s2.rt[mi]? with
+            | none => rw [transition, hr2]; simp only []; exact R.fault _
+            | some r2 =>
+            cases hm2 : s2.machines[mi]? with
+            | none => rw [transition, hr2, hm2]; simp only []; exact R.fault _
+            | some m2 =>
+              exact (q2.trans (R.push s2 (.trans mi Event.counterZero.toNat r2.currentState) rfl)).trans
+                (ihT .counterZero s2 r2 m2 hr2 hm2)
+        split
+        · exact R.fault _
+        · exact qT
+      · exact q2
+
+/-- a transition delivered from outside (any event but LimitReached) -/
+theorem r_transition (fuel j : Nat) (ev : Event) (s : Fw σ) (hev : ev ≠ .limitReached) :
+    R ms s (transition ρ fuel j ev s).1 := by
+  cases fuel with
+  | zero => rw [transition]; exact R.fault _
+  | succ n =>
+    cases hr : s.rt[j]? with
+    | none => rw [transition, hr]; simp only []; exact R.fault _
+    | some r =>
+    cases hm : s.machines[j]? with
+    | none => rw [transition, hr, hm]; simp only []; exact R.fault _
+    | some m =>
+      refine (R.push s (.trans j ev.toNat r.currentState) ?_).trans ((main ρ j (n + 1)).1 ev s r m hr hm)
+      have : ev.toNat ≠ Gen.EV_LimitReached := fun h => hev ((toNat_limitReached ev).1 h)
+      simpa [plain] using this
+
 end LL
 end Mb
